@@ -168,4 +168,32 @@ def outs (s : State) : Hist → List Out
   | [] => []
   | (t, o) :: os => (step s t o).2 :: outs (step s t o).1 os
 
+/-! ### What `Status` must NOT be: two transactions
+
+`banStore.Status` runs in ONE bbolt write transaction (`walletdb.Update`): the
+read of the record and the removal of a lapsed one are one atomic step under the
+database's writer lock, which is why `step` treats a call as atomic.  The
+variant below reads in a read-only transaction (`statusView`) and purges the key
+in a later write transaction without looking at the record again
+(`statusPurge`); other calls can commit in between.  It is only used to state
+the counterexample `C13_split_status_counterexample`. -/
+
+inductive SplitOp where
+  | call (t : Int) (op : Op)             -- any atomic store call
+  | statusView (t : Int) (tg : Target)    -- first transaction of a split Status: the answer, nothing removed
+  | statusPurge (tg : Target)             -- its second transaction: delete the key, whatever is stored now
+deriving DecidableEq, Repr
+
+def stepSplit (s : State) : SplitOp → State × Out
+  | .call t op => step s t op
+  | .statusView t tg => (s, (step s t (.status tg)).2)
+  | .statusPurge tg =>
+    match keyOf tg with
+    | some k => ({ recs := del s.recs k }, .notBanned)
+    | none => (s, .notBanned)
+
+def runSplit (s : State) : List SplitOp → State
+  | [] => s
+  | o :: os => runSplit (stepSplit s o).1 os
+
 end Neutrino.Ban
